@@ -136,6 +136,7 @@ class Engine:
         s.undef_strict = True
         s.on_instr = None
         s.known_filter = None; s.known_hits = {}
+        s.fresh_only = False; s.inc_timeout_ms = 3000
         from . import models_rt
         models_rt.install(s)
 
@@ -148,18 +149,30 @@ class Engine:
         for c in pc[k:]:
             s.solver.push(); s.solver.add(c); st.append(c)
     def check(s, st, cond=None):
-        """is pc /\\ cond satisfiable?  returns model or None; raises Inconclusive on unknown"""
-        s._sync(st.pc)
+        """is pc /\\ cond satisfiable?  returns model or None; raises Inconclusive on unknown.
+        First the incremental solver (push/pop along the DFS) with a short timeout, then - because z3's incremental
+        mode skips the tactic pipeline that floating point and hard bit-vector queries need - a fresh solver."""
         t = time.time()
-        if cond is not None:
-            s.solver.push(); s.solver.add(cond)
-        r = s.solver.check()
-        m = s.solver.model() if r == z3.sat else None
-        if s.dump_queries is not None and len(s.dump_queries) < 40 and cond is not None:
-            s.dump_queries.append((s.solver.to_smt2(), str(r)))
-        if cond is not None: s.solver.pop()
+        r = z3.unknown; m = None
+        if not s.fresh_only:
+            s._sync(st.pc)
+            if cond is not None:
+                s.solver.push(); s.solver.add(cond)
+            s.solver.set('timeout', min(s.timeout_ms, s.inc_timeout_ms))
+            r = s.solver.check()
+            m = s.solver.model() if r == z3.sat else None
+            if s.dump_queries is not None and len(s.dump_queries) < 40 and cond is not None:
+                s.dump_queries.append((s.solver.to_smt2(), str(r)))
+            if cond is not None: s.solver.pop()
+        if r == z3.unknown:
+            f = z3.Solver(); f.set('timeout', s.timeout_ms)
+            for c in st.pc: f.add(c)
+            if cond is not None: f.add(cond)
+            r = f.check(); s.stats['fresh'] = s.stats.get('fresh', 0) + 1
+            m = f.model() if r == z3.sat else None
+            why = f.reason_unknown() if r == z3.unknown else ''
         s.stats['solver_s'] += time.time() - t; s.stats['queries'] += 1; s.stats[str(r)] += 1
-        if r == z3.unknown: raise Inconclusive('unknown', 'solver returned unknown (%s)' % s.solver.reason_unknown())
+        if r == z3.unknown: raise Inconclusive('unknown', 'solver returned unknown (%s)' % why)
         return m
     def model_true(s, st, c):
         """evaluate Bool c under the state's witness model; None if no model"""
